@@ -62,6 +62,12 @@ type unsupported struct{ msg string }
 func (u unsupported) Error() string { return u.msg }
 
 type FV struct {
+	pendingIt, pendingItBound string
+	pendingItTerm Term
+	closureRet    []*closureRetCtx // returns of a function literal being executed as the body of a yield loop
+	inYieldCall   int
+	litStmts      map[*ast.FuncLit]ast.Stmt
+	rangeCallback *Term // the callback value of a synthetic call made for `range recv.M`
 	skolemCount int
 	ixNames map[string]string // names of compound ground index terms
 	curResults []Term // values being returned, while the ghost statements anchored at a return run
